@@ -130,7 +130,9 @@ class Check(PropertyCheck):
                   "inside the model (BFile = bytes handed to the OS + process buffer; write with an arbitrary spill, flush): for EVERY "
                   "hook sequence, every buffering behaviour, every number of completed file operations and every surviving byte "
                   "count the disk content loads as an initial segment of the written flows (crash_consistent_any_buffering, "
-                  "crash_prefix_every_hook_sequence, explicit_save_crash_consistent); at every hook boundary the OS holds the whole "
+                  "crash_prefix_every_hook_sequence, explicit_save_crash_consistent — and in exact form, naming WHICH flows: the first k, k = "
+                  "records wholly within the surviving bytes, clean end iff on a record boundary: crash_consistent_any_buffering_exact, "
+                  "crash_prefix_every_hook_sequence_exact, explicit_save_crash_consistent_exact, crash_prefix_every_addon_history_exact); at every hook boundary the OS holds the whole "
                   "concatenation and the buffer is empty because FilteredFlowWriter.add flushes (hook_boundary_flushed, "
                   "stream_disk_complete_after_each_hook; with ONE hypothesis about the whole run instead of one per hook: "
                   "stream_file_complete_at_every_hook, stream_disk_complete_at_every_hook); an explicit save is complete after close "
